@@ -604,7 +604,7 @@ def run(prog, rep, tier):
     eqs = 0
     for c in dn.live_calls():
         last = (c.o or c.d).split("::")[-1]
-        if last in ("ends_with", "starts_with", "contains", "find", "rfind", "eq", "ne", "strip_prefix", "strip_suffix"):
+        if last in ("ends_with", "starts_with", "contains", "find", "rfind", "eq", "ne", "cmp", "partial_cmp", "strip_prefix", "strip_suffix"):
             argsrc = set()
             for a in c.args[:2]:
                 if a[0] == "k":
@@ -615,7 +615,7 @@ def run(prog, rep, tier):
                     elif x[0] in ("arg", "local") and dn.local_name(x[1]):
                         argsrc.add(dn.local_name(x[1]))
             if "path" in argsrc or "subfpath" in argsrc or "subpath" in argsrc:
-                if last in ("eq", "ne"):
+                if last in ("eq", "ne", "cmp", "partial_cmp"):
                     eqs += 1
                 else:
                     loose.append((last, c.line, sorted(argsrc)))
